@@ -315,12 +315,15 @@ package argmapper
 //@ func newValueSet
 //@   requires count >= 0 && get != nil && forall(i, int, imp(0 <= i && i < count, getOK(get, i)))
 //@   ensures  [empty] imp(count == 0, result1 == nil && emptyVS(result0) && fresh(result0))
-//@   ensures  [single-marker-struct] imp(count == 1 && isMarkerStruct(getT(get, 0)), (result1 == nil) == (ptrDepth(getT(get, 0)) <= 1) && imp(result1 == nil, vsOK(result0, baseType(getT(get, 0))) && fresh(result0) && result0.structPointers == ptrDepth(getT(get, 0)) && !result0.isLifted))
+//@   ensures  [single-marker-struct-accept] imp(count == 1 && isMarkerStruct(getT(get, 0)), (result1 == nil) == (ptrDepth(getT(get, 0)) <= 1))
+//@   ensures  [single-marker-struct-shape] imp(count == 1 && isMarkerStruct(getT(get, 0)) && result1 == nil, fresh(result0) && result0.structPointers == ptrDepth(getT(get, 0)) && !result0.isLifted && vsP0(result0, baseType(getT(get, 0)), numField(baseType(getT(get, 0)))))
+//@   ensures  [single-marker-struct-values] imp(count == 1 && isMarkerStruct(getT(get, 0)) && result1 == nil, vsP1(result0, baseType(getT(get, 0)), numField(baseType(getT(get, 0)))) && vsP2(result0, baseType(getT(get, 0)), numField(baseType(getT(get, 0)))) && vsP3(result0, baseType(getT(get, 0)), numField(baseType(getT(get, 0)))))
+//@   ensures  [single-marker-struct-maps] imp(count == 1 && isMarkerStruct(getT(get, 0)) && result1 == nil, vsP4(result0, baseType(getT(get, 0)), numField(baseType(getT(get, 0)))) && vsP5(result0, baseType(getT(get, 0)), numField(baseType(getT(get, 0)))) && vsP6(result0, baseType(getT(get, 0)), numField(baseType(getT(get, 0)))) && vsP7(result0, baseType(getT(get, 0)), numField(baseType(getT(get, 0)))))
 //@   ensures  [mixed-marker-rejected] imp(count > 1 && exists(i, int, 0 <= i && i < count && isMarkerStruct(getT(get, i))), result1 != nil)
 //@   ensures  [lifted] imp(count >= 1 && forall(i, int, imp(0 <= i && i < count, !isMarkerStruct(getT(get, i)))), result1 == nil && liftedVS(result0, get, count) && fresh(result0))
 //@   ensures  [error-means-nil] imp(result1 != nil, result0 == nil)
 //@   ensures  [frame] vsKept() && sliceskept([]reflect.StructField)
 //@   assigns  ValueSet, Value, valueInternal, []*Value, map[string]*Value, map[reflect.Type]*Value, map[string]string, []string, []interface{}, reflect.StructField, []reflect.StructField, vpos
 //@   loop 1 invariant vsKept() && sliceskept([]reflect.StructField) && 0 <= i && i <= count && len(sf) == i && soff(sf) == 0 && (fresh(sf) || sf == nil)
-//@   loop 1 invariant forall(j, int, imp(0 <= j && j < i, sf[j].Type == getT(get, j) && sf[j].Tag == "argmapper:\",typeOnly\"" && sf[j].PkgPath == "" && !sf[j].Anonymous && !isMarkerStruct(getT(get, j))))
+//@   loop 1 invariant forall(j, int, imp(0 <= j && j < i, allocated(sf[j]) && sf[j] != nil && sf[j].Type == getT(get, j) && sf[j].Tag == "argmapper:\",typeOnly\"" && sf[j].PkgPath == "" && !sf[j].Anonymous && !isMarkerStruct(getT(get, j))))
 //@   loop 1 decreases count - i
